@@ -562,7 +562,13 @@ def split_signature(sig: str):
 
 
 def generate(unit, template_path, canary=False):
-    Source.reset()
+    srcs = {}
+
+    def get_src(rel):   # per-call cache: generate() may run concurrently for several units
+        if rel not in srcs:
+            srcs[rel] = Source(rel)
+        return srcs[rel]
+
     g = Gen(unit, template_path)
     blocks = parse_template(template_path)
     trel = os.path.relpath(template_path, os.path.dirname(os.path.dirname(template_path)))
@@ -575,11 +581,13 @@ def generate(unit, template_path, canary=False):
                 g.linemap.append({"kind": "template", "file": trel, "line": start + k})
         elif b[0] == "item":
             spec = b[1]
-            src = Source.get(spec["file"])
+            src = get_src(spec["file"])
             a, e = src.find_item(spec["kind"], spec["name"])
             text = strip_attrs_and_docs(src.text[a:e])
             # R0: restricted visibility has no run-time meaning; Verus wants `pub` for items named in pub specs
             text = re.sub(r"^pub\s*\([^)]*\)", "pub", text, count=1)
+            if spec["kind"] in ("struct", "enum", "type") and not text.startswith("pub"):
+                text = "pub " + text
             g.rewrites.append({"rule": "R0", "where": f"{spec['file']}:{line_of(src.text, a)}", "before": "attributes/doc comments", "after": "(dropped)"})
             g.emit_mapped(text, spec["file"], line_of(src.text, a))
         elif b[0] == "lemma":
@@ -611,7 +619,7 @@ def generate(unit, template_path, canary=False):
                              "hash": hashlib.sha256("\n".join(spec["text"]).encode()).hexdigest()[:16]})
         else:
             spec = b[1]
-            src = Source.get(spec["file"])
+            src = get_src(spec["file"])
             if spec["impl"] == "-":
                 ranges = [(0, len(src.mask))]
             else:
